@@ -41,7 +41,7 @@ META = {
         "the corpus are run on midgard and compared with the model's prediction inside Coq (vm_compute)."),
     "level_note": (
         "Trusted: Coq kernel + vm_compute; the hand-written model (validated, not derived); the canonical digest in "
-        "harness/drivers/c16_worker.py (sha256, 128 bits kept); 'fresh interpreter' = a new CPython process. What a parser "
+        "harness/drivers/c16_worker.py (sha256, 128 bits); 'fresh interpreter' = a new CPython process. What a parser "
         "computes from the bytes is outside this property (C11-C15). Parsers whose optional dependency or network is "
         "missing are skipped and listed in the evidence."),
 }
@@ -101,9 +101,12 @@ def pmap(fn, items, jobs=core.NCPU):
         return list(ex.map(fn, items))
 
 
+_INTERN = {}
+
+
 def zdig(text):
-    """digest text -> non-negative 120-bit integer"""
-    return int(hashlib.sha256(str(text).encode()).hexdigest()[:30], 16)
+    """digest text -> small non-negative integer, one-to-one (interned in order of first use; only equality matters)"""
+    return _INTERN.setdefault(str(text), len(_INTERN))
 
 
 # ----------------------------------------------------------------------------------------------- plug-in table
@@ -266,15 +269,15 @@ def ops_to_coq(ops, jobs, pidx, fidx, aidx):
     for kind, i, j in ops:
         if kind in ("construct", "parse_file"):
             jb = jobs[j]
-            out.append(f"Construct {emit.z(i)} {emit.z(pidx[jb['parser']])} {emit.z(fidx[jb['file']])} {emit.z(aidx[jb['argkey']])}")
+            out.append(f"zC {emit.z(i)} {emit.z(pidx[jb['parser']])} {emit.z(fidx[jb['file']])} {emit.z(aidx[jb['argkey']])}")
             if kind == "parse_file":
-                out.append(f"Parse {emit.z(i)}")
+                out.append(f"zP {emit.z(i)}")
         elif kind == "parse":
-            out.append(f"Parse {emit.z(i)}")
+            out.append(f"zP {emit.z(i)}")
         elif kind == "mutate":
-            out.append(f"Mutate {emit.z(i)}")
+            out.append(f"zM {emit.z(i)}")
         elif kind == "drop":
-            out.append(f"Drop {emit.z(i)}")
+            out.append(f"zD {emit.z(i)}")
     return emit.lst(out)
 
 
@@ -408,8 +411,9 @@ def run(ctx):
     content_of = {}
     for j in corpus:
         content_of[j["file"]] = j["content"]
-    table_term = emit.lst(emit.pair(emit.pair(emit.z(pidx[j["parser"]]), emit.z(zdig(j["content"])), emit.z(aidx[j["argkey"]])),
-                                    emit.z(zdig(j["digest"]))) for j in corpus)
+    _INTERN.clear()
+    table_term = emit.lst(f"zt {emit.z(pidx[j['parser']])} {emit.z(zdig(j['content']))} {emit.z(aidx[j['argkey']])} {emit.z(zdig(j['digest']))}"
+                          for j in corpus)
     files_term = emit.lst(emit.pair(emit.z(fidx[f]), emit.z(zdig(c))) for f, c in sorted(content_of.items()))
 
     # ---------------------------------------------------------------- C. histories
@@ -430,11 +434,11 @@ def run(ctx):
         for b_ in range(n):
             hv_ = a in heavy or b_ in heavy
             if same_family(a, b_):
-                k = (1 if hv_ else 3) if quick else (3 if hv_ else NI)
+                k = (1 if hv_ else 2) if quick else (3 if hv_ else NI)
+            elif quick:
+                k = 1 if rng.random() < (0.1 if hv_ else 0.5) else 0      # seeded half of the cross-family pairs
             else:
-                k = (0 if hv_ else 1) if quick else (1 if hv_ else 4)
-            if quick and hv_ and not same_family(a, b_) and rng.random() < 0.1:
-                k = 1
+                k = 1 if hv_ else 3
             for il in rng.sample(range(NI), k):
                 push({"shape": "pair", "A": a, "B": b_, "interleaving": INTERLEAVINGS[il]},
                      lambda b0, a=a, b_=b_, il=il: pair_history(a, b_, il, b0))
@@ -444,12 +448,12 @@ def run(ctx):
         by_fam.setdefault(fam[corpus[k]["parser"]], []).append(k)
     for f_, members in sorted(by_fam.items()):
         trip = list(itertools.product(members, repeat=3))
-        cap = 60 if quick else 3000
+        cap = 40 if quick else 3000
         if len(trip) > cap:
             trip = rng.sample(trip, cap)
         for a, b_, c in trip:
             push({"shape": "triple", "A": a, "B": b_, "C": c}, lambda b0, a=a, b_=b_, c=c: triple_history(a, b_, c, b0))
-    for _ in range(150 if quick else 8000):
+    for _ in range(100 if quick else 5000):
         a, b_, c = rng.choice(light), rng.choice(light), rng.choice(light)
         push({"shape": "triple", "A": a, "B": b_, "C": c}, lambda b0, a=a, b_=b_, c=c: triple_history(a, b_, c, b0))
     rng.shuffle(hist)
@@ -494,16 +498,18 @@ def run(ctx):
         k = 0
         for hi, (label, h) in enumerate(batch):
             nobs = sum(1 for o in h if o[0] in ("parse", "parse_file"))
-            obs_t = emit.lst(emit.pair(emit.z(o["i"]), emit.z(zdig(o["digest"])), emit.z(zdig(o["file_before"])), emit.z(zdig(o["file_after"])))
+            obs_t = emit.lst(f"zo {emit.z(o['i'])} {emit.z(zdig(o['digest']))} {emit.z(zdig(o['file_before']))} {emit.z(zdig(o['file_after']))}"
                              for o in res[k:k + nobs])
-            cases.append(emit.pair(ops_to_coq(h, corpus, pidx, fidx, aidx), obs_t))
+            cases.append(f"zh {ops_to_coq(h, corpus, pidx, fidx, aidx)} {obs_t}")
             k += nobs
             ctx.case(("H", json.dumps(label_text(label), sort_keys=True)), nontrivial=True,
                      sample=label_text(label) if len(ctx.samples) < 4 else None)
         shard_terms.append("let t := " + table_term + " in\nlet files := " + files_term + " in\n"
                            "List.concat (List.map (fun c => check_history_detail (t, files, fst c, snd c))\n" + emit.lst(cases) + ")")
         shard_meta.append((batch, res, owner))
+    t0 = time.time()
     vs = ctx.coq_cases(shard_terms, REQ, timeout=1500)
+    ctx.log(f"history verdicts computed in Coq in {time.time() - t0:.0f}s")
     reparse_diff = set()
     unexplained = []
     for (batch, res, owner), v in zip(shard_meta, vs):
@@ -581,6 +587,7 @@ def run(ctx):
             ctx.count("headers:file_starts_with_continuation" if lead else "headers:plain")
             ctx.case(("HDR", json.dumps(files[:m + 1])), nontrivial=m > 0,
                      sample={"header_files_before": files[max(0, m - 2):m], "file": f, "observed": r[m]} if lead and m > 0 and len(ctx.samples) < 6 else None)
+    ctx.log(f"header interpreters: {len(hcases)} x {n_files} files")
     hvs = ctx.coq_cases(["List.concat (List.map check_hdr_detail " + emit.lst(hterms[k:k + 4]) + ")" for k in range(0, len(hterms), 4)], REQ)
     hv = emit.flatten_verdicts(hvs, sum(len(f) for f, _ in hmeta)) if hterms else []
     if hv is None:
@@ -623,7 +630,7 @@ def run(ctx):
     ctx.trusted += [
         "Coq 8.16.1 kernel, coqc, vm_compute (no native_compute)",
         "hand-written model coq/theories/Model/C16_Purity.v (validated against midgard by this run's correspondence)",
-        "harness/drivers/c16.py + c16_worker.py (history generation, canonical digest: sha256 of a canonical form, 120 bits kept; "
+        "harness/drivers/c16.py + c16_worker.py (history generation, canonical digest: sha256 of a canonical form, 128 bits, interned one-to-one as integers; "
         "reflection used for Gen/C16_Plugins.v)",
         "a new CPython process is a 'fresh interpreter'",
     ]
@@ -634,7 +641,7 @@ def run(ctx):
         rule=("corpus = every listed parser x its example file (tests/parsers/example_files/<name>), the files the tests name, extra files for "
               "the untested parsers and six argument variants; each parsed in 2 fresh interpreters (2 hash seeds). Histories: per ordered pair "
               "(A,B) of corpus jobs incl. A=B the interleavings of {construct A, parse A, mutate result A} with {construct B, parse B} followed by "
-              "parse_file(A) again - all 10 within a parser family, a seeded sample across families (quick) / all 10 (thorough); a re-parse "
+              "parse_file(A) again - 2 (quick) / all 10 (thorough) within a parser family, 1 for a seeded half of the cross-family pairs (quick) / 3 for all (thorough); a re-parse "
               "history per job; triples A,B,C (sampled in quick; all within family + 30000 across in thorough). Generated RINEX 3 headers "
               "(1-4 files x 1-4 OBS TYPES lines, with/without leading continuation line) against the parser_cache model. "
               "distinct_nontrivial = distinct histories + plug-in rows"),
